@@ -292,8 +292,10 @@ impl HeaderMetadataSpec {
                         success_order,
                         failure_order,
                     )
-                    .map(|x| FromPrimitive::from_u8(x).unwrap())
-                    .map_err(|x| FromPrimitive::from_u8(x).unwrap())
+                    // The atomic operation works on the whole byte.  Report the bits of this
+                    // field only, like every other value-returning accessor does.
+                    .map(|x| FromPrimitive::from_u8(self.get_bits_from_u8(x)).unwrap())
+                    .map_err(|x| FromPrimitive::from_u8(self.get_bits_from_u8(x)).unwrap())
             }
         } else {
             let addr = self.meta_addr(header);
